@@ -291,6 +291,8 @@ pub struct Obs {
     pub non_current_signature: bool,
     pub buffered: u32,
     pub mislabelled_accepted: u32,
+    /// a submission under a name not registered for the entity's epoch went into the buffer
+    pub buffered_unregistered_name: bool,
     /// entities for which a row under a name other than its producer's was seen
     pub mislabelled_stored: BTreeSet<String>,
 }
@@ -500,7 +502,10 @@ impl Run {
                     }
                     if let Err(e) = &r {
                         if let Some(msg) = e.strip_prefix("panic: ") {
-                            if self.violate("panic-in-cycle", format!("the state machine cycle panics: {}", msg.chars().take(300).collect::<String>())) {
+                            // the buffer hands over what was accepted earlier: a submission under a name that is not
+                            // registered is the same storage-layer panic as on direct submission, one step later
+                            let key = if msg.contains("FOREIGN KEY") && self.obs.buffered_unregistered_name { "panic-on-submission:name-not-registered:buffered" } else { "panic-in-cycle" };
+                            if self.violate(key, format!("the state machine cycle panics: {}", msg.chars().take(300).collect::<String>())) {
                                 return;
                             }
                         }
@@ -801,8 +806,11 @@ impl Run {
                         if r.starts_with("http ") { r.chars().take(8).collect::<String>().replace(' ', "-") } else { "refused".into() }
                     }
                 };
-                if outcome == Submitted::Buffered {
+                if outcome == Submitted::Buffered || (s.inlet == Inlet::Dmq && outcome == Submitted::Registered && !stored) {
                     self.obs.buffered += 1;
+                    if !label_party.is_some_and(|p| self.model.members_for_signing_epoch(es).contains_key(&p)) {
+                        self.obs.buffered_unregistered_name = true;
+                    }
                 }
                 self.label(format!("sign:{class}:{:?}:{:?}:{oc}", s.flavour, s.inlet));
                 if stored && label_party != Some(producer) {
@@ -910,30 +918,24 @@ impl Run {
         }
     }
 
+    /// (party ids, distinct lottery indices) of the valid signatures submitted for `t`. A submission counts for
+    /// the party it was submitted as (C14) or, with `signers_by_true_key` (C16), for the party whose key made it.
     fn valid_submissions(&mut self, t: &SignedEntityType, ks: &Arc<KeySet>, message: &str) -> (BTreeSet<String>, BTreeSet<u64>) {
         let mut parties = BTreeSet::new();
         let mut indices = BTreeSet::new();
         let subs = self.obs.subs.get(&tkey(t)).cloned().unwrap_or_default();
         for s in subs {
-            let Some(p) = self.model.party_index(&s.label) else { continue };
-            if self.model.verifies_for_party(ks, p, &s.sig, message) {
-                parties.insert(s.label.clone());
+            let who = if self.opts.signers_by_true_key {
+                self.model.true_signer(ks, &s.sig, message)
+            } else {
+                self.model.party_index(&s.label).filter(|p| self.model.verifies_for_party(ks, *p, &s.sig, message))
+            };
+            if let Some(p) = who {
+                parties.insert(self.model.parties[p].party_id.clone());
                 indices.extend(s.sig.to_protocol_signature().get_concatenation_signature_indices());
             }
         }
         (parties, indices)
-    }
-
-    /// the parties whose own registered key verifies some signature submitted (under any name) for `t`
-    fn true_signers(&mut self, t: &SignedEntityType, ks: &Arc<KeySet>, message: &str) -> BTreeSet<String> {
-        let mut parties = BTreeSet::new();
-        let subs = self.obs.subs.get(&tkey(t)).cloned().unwrap_or_default();
-        for s in subs {
-            if let Some(q) = self.model.true_signer(ks, &s.sig, message) {
-                parties.insert(self.model.parties[q].party_id.clone());
-            }
-        }
-        parties
     }
 
     /// C16 liveness side of "copies do not worsen the outcome": which entity must the next cycle certify?
@@ -1130,10 +1132,7 @@ impl Run {
                 }
             }
         }
-        let (mut valid_parties, indices) = self.valid_submissions(&t, &ks, &c.signed_message);
-        if self.opts.signers_by_true_key {
-            valid_parties = self.true_signers(&t, &ks, &c.signed_message);
-        }
+        let (valid_parties, indices) = self.valid_submissions(&t, &ks, &c.signed_message);
         for sp in &c.metadata.signers {
             if !valid_parties.contains(&sp.party_id) {
                 let key = if self.obs.mislabelled_stored.contains(&tkey(&t)) { "mislabelled-signature-stored:listed-in-certificate" } else { "I2-signer-listed-without-valid-signature" };
